@@ -58,10 +58,10 @@ structure Kernel where
   chan : ChanId
   partons : PMap
 
-/-- everything `Combiner`/the generators read from the ESF and its configuration -/
-structure EsfCfg where
+/-- everything the kernel generators read from the ESF and its configuration, except the
+requested flavour and the FONLL parts (which only `Combiner.collect` looks at) -/
+structure Env where
   kind : Kind
-  flavor : Flavor
   cc : CC
   q2 : Rat
   /-- `nf_default(Q2, atlas)` -/
@@ -72,7 +72,6 @@ structure EsfCfg where
   zmt : Bool
   /-- `"FFN0" in scheme` -/
   ffn0 : Bool
-  parts : Parts
   pto : Nat
   ptoEvol : Nat
   z : Rat
@@ -80,21 +79,21 @@ structure EsfCfg where
   deriving Inhabited
 
 /-- `Combiner.masses[ihq] = not ZMq` for ihq = 4,5,6; absent otherwise -/
-def EsfCfg.massive (e : EsfCfg) (ihq : Nat) : Bool :=
+def Env.massive (e : Env) (ihq : Nat) : Bool :=
   match ihq with
   | 4 => !e.zmc
   | 5 => !e.zmb
   | 6 => !e.zmt
   | _ => false
 
-def EsfCfg.isPV (e : EsfCfg) : Bool := e.kind.isPV
-def EsfCfg.isCC (e : EsfCfg) : Bool := e.cc.ob.process == .CC
+def Env.isPV (e : Env) : Bool := e.kind.isPV
+def Env.isCC (e : Env) : Bool := e.cc.ob.process == .CC
 
 def mk (family cls : String) (nfArg ihq : Nat) (w : PMap) : Kernel :=
   { chan := ⟨family, cls, nfArg, ihq⟩, partons := w }
 
 /-- `light.kernels.generate(esf, nf)` -/
-def genLight (e : EsfCfg) (nf : Nat) : List Kernel :=
+def genLight (e : Env) (nf : Nat) : List Kernel :=
   if e.isCC then
     let we := ccWeightsEven e.cc (Mask.light nf) nf e.isPV
     let wo := ccWeightsOdd e.cc (Mask.light nf) nf e.isPV
@@ -117,7 +116,7 @@ def genLight (e : EsfCfg) (nf : Nat) : List Kernel :=
       else base
 
 /-- `heavy.kernels.generate_missing(esf, nf, ihq)` -/
-def genMissing (e : EsfCfg) (nf ihq : Nat) : List Kernel :=
+def genMissing (e : Env) (nf ihq : Nat) : List Kernel :=
   if e.isCC then [] else
   [mk "heavy" "NonSinglet" nf ihq (ncWeights e.cc e.q2 nf e.isPV).ns]
 
@@ -125,13 +124,13 @@ def asyName (res : Nat) (channel : String) : String :=
   "Asy" ++ String.ofList (List.replicate res 'N') ++ "LL" ++ channel
 
 /-- `asy.kernels.generate_missing_asy(esf, nf, ihq, pto_evol)` -/
-def genMissingAsy (e : EsfCfg) (nf ihq : Nat) : List Kernel :=
+def genMissingAsy (e : Env) (nf ihq : Nat) : List Kernel :=
   if e.isCC then [] else
-  let w := (ncWeights e.cc e.q2 nf e.isPV (skipHL := true)).ns
+  let w := (ncWeights e.cc e.q2 nf e.isPV).ns
   (List.range (e.ptoEvol + 1)).map fun res => mk "asy" (asyName res "NonSinglet") nf ihq w
 
 /-- `kernels.generate_single_flavor_light(esf, nf, ihq)` -/
-def genSingleFlavorLight (e : EsfCfg) (nf ihq : Nat) : List Kernel :=
+def genSingleFlavorLight (e : Env) (nf ihq : Nat) : List Kernel :=
   let nfR : Rat := (nf : Rat)
   if e.isCC then
     let we := ccWeightsEven e.cc (Mask.single ihq) nf e.isPV
@@ -164,7 +163,7 @@ def genSingleFlavorLight (e : EsfCfg) (nf ihq : Nat) : List Kernel :=
       else base
 
 /-- `heavy.kernels.generate(esf, nf, ihq)` -/
-def genHeavy (e : EsfCfg) (nf ihq : Nat) : List Kernel :=
+def genHeavy (e : Env) (nf ihq : Nat) : List Kernel :=
   if e.isCC then
     let w := ccWeights e.cc (Mask.single ihq) nf e.isPV
     [mk "heavy" "NonSinglet" nf ihq w.ns, mk "heavy" "Gluon" nf ihq w.g]
@@ -175,7 +174,7 @@ def genHeavy (e : EsfCfg) (nf ihq : Nat) : List Kernel :=
      mk "heavy" "SingletVV" nf ihq w.sVV, mk "heavy" "SingletAA" nf ihq w.sAA]
 
 /-- the intrinsic weights restricted to `±ihq`: `(wp-map, wm-map)` -/
-def intrinsicWeights (e : EsfCfg) (ihq : Nat) : PMap × PMap :=
+def intrinsicWeights (e : Env) (ihq : Nat) : PMap × PMap :=
   if e.isCC then
     let w := ccWeights e.cc (Mask.single ihq) ihq e.isPV
     (fun p => if p.natAbs = ihq then w.ns p else 0, PMap.zero)
@@ -194,7 +193,7 @@ def intrinsicWeights (e : EsfCfg) (ihq : Nat) : PMap × PMap :=
     (fun p => if p.natAbs = ihq then wp else 0, fun p => if p.natAbs = ihq then wm else 0)
 
 /-- `intrinsic.kernels.generate(esf, ihq)` -/
-def genIntrinsic (e : EsfCfg) (ihq : Nat) : List Kernel :=
+def genIntrinsic (e : Env) (ihq : Nat) : List Kernel :=
   let (wp, wm) := intrinsicWeights e ihq
   if e.isCC then
     [mk "intrinsic" (if e.isPV then "Rplus" else "Splus") (ihq - 1) ihq wp]
@@ -204,7 +203,7 @@ def genIntrinsic (e : EsfCfg) (ihq : Nat) : List Kernel :=
     [mk "intrinsic" "Splus" (ihq - 1) ihq wp, mk "intrinsic" "Sminus" (ihq - 1) ihq wm]
 
 /-- `asy.kernels.generate_intrinsic_asy(esf, nf, pto_evol, ihq)` -/
-def genIntrinsicAsy (e : EsfCfg) (nf ihq : Nat) : List Kernel :=
+def genIntrinsicAsy (e : Env) (nf ihq : Nat) : List Kernel :=
   let w := (intrinsicWeights e ihq).1
   let base := [mk "asy" "AsyLLIntrinsic" nf ihq w]
   if e.ptoEvol > 0 then
@@ -212,7 +211,7 @@ def genIntrinsicAsy (e : EsfCfg) (nf ihq : Nat) : List Kernel :=
   else base
 
 /-- `asy.kernels.generate_heavy_asy(esf, nf, pto_evol, ihq)` -/
-def genHeavyAsy (e : EsfCfg) (nf ihq : Nat) : List Kernel :=
+def genHeavyAsy (e : Env) (nf ihq : Nat) : List Kernel :=
   if e.isCC then
     let w := ccWeights e.cc (Mask.single ihq) nf e.isPV
     [mk "asy" "AsyQuark" nf ihq w.ns, mk "asy" "AsyGluon" nf ihq w.g]
@@ -225,40 +224,42 @@ def genHeavyAsy (e : EsfCfg) (nf ihq : Nat) : List Kernel :=
     chan "Gluon" w.gAA w.gVV ++ chan "Singlet" w.sAA w.sVV
 
 /-- `Combiner.light_component` -/
-def lightComponent (e : EsfCfg) : List Kernel :=
+def lightComponent (e : Env) : List Kernel :=
   let nf := e.nf
   genLight e nf ++
     (((List.range (6 - nf)).map fun i =>
       let ihq := nf + 1 + i
       if e.massive ihq then (if e.ffn0 then genMissingAsy e nf ihq else genMissing e nf ihq) else []).flatten)
 
-/-- `Combiner.heavylight_components` -/
-def heavylightComponents (e : EsfCfg) : List Kernel :=
+/-- `Combiner.heavylight_components` (`hq = obs_name.hqnumber`) -/
+def heavylightComponents (e : Env) (hq : Nat) : List Kernel :=
   let nf := e.nf
-  let hq := e.flavor.hqnumber
   if hq < nf ∨ (hq = nf ∧ !e.massive hq) then genSingleFlavorLight e nf hq else []
 
-/-- `Combiner.heavy_components` -/
-def heavyComponents (e : EsfCfg) : List Kernel :=
+/-- the contribution of the massive quark `sfh` to `Combiner.heavy_components` -/
+def heavyPiece (e : Env) (sfh : Nat) : List Kernel :=
+  (if e.ffn0 then genIntrinsicAsy e e.nf sfh else genIntrinsic e sfh) ++
+  (if e.ffn0 then genHeavyAsy e e.nf sfh else genHeavy e e.nf sfh)
+
+/-- `Combiner.heavy_components` (`hq = obs_name.hqnumber`, 0 for `total`) -/
+def heavyComponents (e : Env) (hq : Nat) : List Kernel :=
   let nf := e.nf
-  let hq := e.flavor.hqnumber
   ((List.range (7 - nf)).map fun i =>
     let sfh := nf + i
     if !e.massive sfh then []
     else if hq ≠ 0 ∧ hq ≠ sfh then []
-    else
-      (if e.ffn0 then genIntrinsicAsy e nf sfh else genIntrinsic e sfh) ++
-      (if e.ffn0 then genHeavyAsy e nf sfh else genHeavy e nf sfh)).flatten
+    else heavyPiece e sfh).flatten
 
 /-- `Combiner.collect` (components flattened) -/
-def collect (e : EsfCfg) : List Kernel :=
-  let fam := e.flavor.family
-  let l1 := if (fam = .light ∨ fam = .total) ∧ (e.parts = .massless ∨ e.parts = .full)
+def collect (e : Env) (flavor : Flavor) (parts : Parts) : List Kernel :=
+  let fam := flavor.family
+  let hq := flavor.hqnumber
+  let l1 := if (fam = .light ∨ fam = .total) ∧ (parts = .massless ∨ parts = .full)
             then lightComponent e else []
-  let l2 := if fam = .heavy ∧ (e.parts = .massless ∨ e.parts = .full)
-            then heavylightComponents e else []
-  let l3 := if (fam = .heavy ∨ fam = .total) ∧ (e.parts = .massive ∨ e.parts = .full)
-            then heavyComponents e else []
+  let l2 := if fam = .heavy ∧ (parts = .massless ∨ parts = .full)
+            then heavylightComponents e hq else []
+  let l3 := if (fam = .heavy ∨ fam = .total) ∧ (parts = .massive ∨ parts = .full)
+            then heavyComponents e hq else []
   l1 ++ l2 ++ l3
 
 /-- `Combiner.apply_isospin` on one weight map -/
@@ -272,7 +273,7 @@ def Kernel.isospin (z a : Rat) (k : Kernel) : Kernel := { k with partons := Yadi
 /-- `Combiner.collect_elems` without the final `drop_empty` (dropping zero-weight entries does not
 change any operator; the driver prints weights on the 14-pid basis and the harness treats an
 absent kernel and an all-zero kernel alike) -/
-def collectElems (e : EsfCfg) : List Kernel :=
-  (collect e).map (Kernel.isospin e.z e.a)
+def collectElems (e : Env) (flavor : Flavor) (parts : Parts) : List Kernel :=
+  (collect e flavor parts).map (Kernel.isospin e.z e.a)
 
 end Yadism
